@@ -83,7 +83,7 @@ Delegated(c, t0) ==
     [] t = "PartialEq" -> { p \in AllFields(c) : F(c, p).eq = Own }
     [] t \in {"PartialOrd", "Ord"} -> { p \in AllFields(c) : F(c, p).ord = Own }
     [] t = "Hash" -> { p \in AllFields(c) : F(c, p).hash = Own }
-    [] t = "Default" -> { p \in AllFields(c) : p[1] = DefaultVariant(c) /\ F(c, p).dflt = "none" }
+    [] t = "Default" -> IF c.opts.dexpr THEN {} ELSE { p \in AllFields(c) : p[1] = DefaultVariant(c) /\ F(c, p).dflt = "none" }
     [] t \in {"Into", "Into:A"} -> { p \in AllFields(c) : p[2] = IntoField(c, p[1], "A") /\ IntoMode(c, p[1], "A") = "convert" }
     [] t = "Into:B" -> { p \in AllFields(c) : p[2] = IntoField(c, p[1], "B") /\ IntoMode(c, p[1], "B") = "convert" }
     [] OTHER -> {}
